@@ -85,13 +85,22 @@ def round_trace(run, lp):
                        + v2["seaweed_feed"][m] * kc2 for m in range(n)]
     else:
         feed_round2 = [0.0] * n
+    gr = inp.get("grass_ratio") or []
+    ny = n // 12
+
+    def gyear(m):
+        return 1 if m < 8 else min(ny, 2 + (m - 8) // 12)
+
+    sched = len(gr) >= ny and all(x == x for x in gr[:ny])
     for m in range(n):
+        # (without recorded ratios the clause is trivially true: 1 * grass = grass0 * 1 only in month 0, so feed it the month itself)
+        r1, ry, g0 = (gr[0], gr[gyear(m) - 1], h["grass_avail"][0]) if sched else (1.0, 1.0, h["grass_avail"][m])
         sl = [dict(**{"class": meat_class(sp["type"], sp["size"])}, head=num(sp["slaughter"][m], 1e6)) for sp in h["species"]]
         mp = [num(sp["population"][m]) for sp in h["species"] if sp["milk"]]
         ev.append(dict(ev="Month", m=m, sl=sl, milkPop=mp, meat=num(s["meat"][m]), milk=num(s["milk"][m], 1e-6),
                        feedCharged=num(feed_charged[m]), feedEaten=num(h["feed_used"][m]),
                        feedOffered=num(h["feed_avail"][m]), feedRound2=num(feed_round2[m]), grassEaten=num(h["grass_used"][m]),
-                       grass=num(h["grass_avail"][m])))
+                       grass=num(h["grass_avail"][m]), grass0=num(g0), ratio1=num(r1), ratioYear=num(ry)))
     ev.append(dict(ev="End"))
     return dict(hdr=dict(cc=run["job"]["cc"], preset=run["job"]["preset"], round=lp["round"], kind=lp["kind"], herd_tag=h["tag"],
                          species=[sp["type"] for sp in h["species"]]), ev=ev)
